@@ -155,16 +155,13 @@ Theorem C07_scanners_partial : forall b rows top cl cc pc has cnt k row off r o 
 Proof. exact vi_motion_off. Qed.
 Print Assumptions C07_scanners_partial.
 
-(* the faithful model does NOT put G with a count beyond the last line on the first non-blank
-   (known finding KF-G-OVERRUN; replayed on the real editor by tools/props/c07.py): on "  ab",
-   1G lands on offset 2, 9G on offset 0 of the same line *)
-Theorem C07_G_overrun_refuted :
-  match run g_witness 23 [Mot 9 KG] init_vst, run g_witness 23 [Mot 1 KG] init_vst with
-  | Some s9, Some s1 => v_row s9 = 0 /\ v_row s1 = 0 /\ v_off s1 = 2 /\ v_off s9 = 0
-  | _, _ => False
-  end.
-Proof. exact g_overrun_witness. Qed.
-Print Assumptions C07_G_overrun_refuted.
+(* the target row of G + - _ H M L j k exists whenever the buffer is not empty: counts that
+   overrun are clamped (for G since fix 4be34b5; before it 9G on "  ab" landed on column 0:
+   corpus/C07-g-overrun.json) -- so C07_line_motions and C07_jk apply to every count *)
+Theorem C07_line_target_in_range : forall b rows top has cnt k row, is_linekey k = true -> 0 <= row < blen b -> 1 <= cnt ->
+  exists l, getl b (line_target b rows top has cnt k row) = Some l.
+Proof. exact line_target_exists. Qed.
+Print Assumptions C07_line_target_in_range.
 
 (* non-vacuity: a well-formed buffer with a tab, a wide and a 2-byte character; a program of
    motions runs to a valid cursor *)
@@ -175,6 +172,13 @@ Example C07_nonvacuous :
   | None => False
   end.
 Proof. vm_compute. reflexivity. Qed.
+
+Example C07_G_overrun_fixed :
+  match run g_witness 23 [Mot 9 KG] init_vst, run g_witness 23 [Mot 1 KG] init_vst with
+  | Some s9, Some s1 => v_row s9 = 0 /\ v_row s1 = 0 /\ v_off s1 = 2 /\ v_off s9 = 2
+  | _, _ => False
+  end.
+Proof. exact g_overrun_fixed. Qed.
 
 Example C07_nonvacuous_wf : buf_wf g_witness /\ cursor_ok g_witness 0 2.
 Proof.
